@@ -834,8 +834,12 @@ impl Database {
                 key::encode_float(*r, buf);
             }
             OwnedValue::Decimal(digits, scale) => {
-                let divisor = 10i128.pow(*scale as u32);
-                let float_val = *digits as f64 / divisor as f64;
+                // 10^scale leaves i128 at scale 39 (and a negative scale is no u32)
+                let divisor = u32::try_from(*scale)
+                    .ok()
+                    .and_then(|s| 10i128.checked_pow(s))
+                    .map_or_else(|| 10f64.powi(*scale as i32), |d| d as f64);
+                let float_val = *digits as f64 / divisor;
                 key::encode_float(float_val, buf);
             }
             OwnedValue::Enum(type_id, ordinal) => {
